@@ -35,7 +35,7 @@
 (* _filter_configs), the homozygous-fill post-processing and the read-phase *)
 (* term of the minor stage (all functions of the same transported table).   *)
 (***************************************************************************)
-EXTENDS Core
+EXTENDS Core, TLCExt
 CN == INSTANCE CNModel
 MM == INSTANCE MajorModel
 MI == INSTANCE MinorModel
@@ -94,41 +94,41 @@ VarAt(b, e, c, v) == IF PileupSite(b, v) = c THEN e.nv[v] ELSE 0
 SiteRec(b, m, e, c, V) ==      \* V: the variants the stage considers
     LET here == SetToSortSeq({v \in V : LoadSite(b, m, v) = c}, <)
     IN [pos |-> c, keepall |-> TRUE,
-        ops |-> <<Op("_", RefAt(b, e, c), FALSE, 0)>>
-                \o [k \in DOMAIN here |-> Op(Variants[here[k]].name, VarAt(b, e, c, here[k]), Variants[here[k]].ins, here[k])]]
+        ops |-> TLCEval(<<Op("_", RefAt(b, e, c), FALSE, 0)>>
+                \o [k \in DOMAIN here |-> Op(Variants[here[k]].name, VarAt(b, e, c, here[k]), Variants[here[k]].ins, here[k])])]
 SitesOf(b, m, V) == SetToSortSeq({LoadSite(b, m, v) : v \in V}, <)
 SiteIdx(sites, c) == CHOOSE i \in DOMAIN sites : sites[i] = c
 CfgRows(b, m, sites) ==
-    [g \in DOMAIN Configs |-> [name |-> Configs[g].name,
-                               cn |-> [i \in DOMAIN sites |-> GeneCopies(b, m, g, RegionAt(b, sites[i]))]]]
+    TLCEval([g \in DOMAIN Configs |-> [name |-> Configs[g].name,
+                               cn |-> TLCEval([i \in DOMAIN sites |-> GeneCopies(b, m, g, RegionAt(b, sites[i]))])]])
 
 (* ---- stage 1: gene structure ------------------------------------------------------------------ *)
 RegIdx(name) == CHOOSE i \in DOMAIN Regions : Regions[i].name = name
 CNCase(b, m, e) ==
     [p |-> PCN, M |-> MaxCN, fs |-> FALSE, pseudo |-> TRUE,
-     regs |-> [i \in DOMAIN CnRegions |-> [c0 |-> e.dg[RegIdx(CnRegions[i])], c1 |-> e.dp[RegIdx(CnRegions[i])], w10 |-> 10]],
-     cfgs |-> [g \in DOMAIN Configs |->
+     regs |-> TLCEval([i \in DOMAIN CnRegions |-> [c0 |-> e.dg[RegIdx(CnRegions[i])], c1 |-> e.dp[RegIdx(CnRegions[i])], w10 |-> 10]]),
+     cfgs |-> TLCEval([g \in DOMAIN Configs |->
                 [name |-> Configs[g].name, kind |-> Configs[g].kind, fsA |-> 0, fsB |-> 0 - 1,
-                 g  |-> [i \in DOMAIN CnRegions |-> GeneCopies(b, m, g, CnRegions[i])],
-                 ps |-> [i \in DOMAIN CnRegions |-> PseudoCopies(b, m, g, CnRegions[i])]]]]
+                 g  |-> TLCEval([i \in DOMAIN CnRegions |-> GeneCopies(b, m, g, CnRegions[i])]),
+                 ps |-> TLCEval([i \in DOMAIN CnRegions |-> PseudoCopies(b, m, g, CnRegions[i])])]])]
 Structures(b, m, e) ==       \* {<<structure, score>>}: all structures of minimal objective
-    LET c == CNCase(b, m, e)
+    LET c == TLCEval(CNCase(b, m, e))
         T == TLCEval(CN!Table(c))
         S == {t[1] : t \in T}
         sc == [s \in S |-> MinSet({t[2] : t \in {u \in T : u[1] = s}})]
     IN IF T = {} THEN {} ELSE {<<s, sc[s]>> : s \in {x \in S : sc[x] = MinSet({sc[y] : y \in S})}}
 StructSeq(s) == LET G == SetToSortSeq({g \in DOMAIN s : s[g] > 0}, <)
-                IN [k \in DOMAIN G |-> [cfg |-> G[k], n |-> s[G[k]]]]
+                IN TLCEval([k \in DOMAIN G |-> [cfg |-> G[k], n |-> s[G[k]]]])
 
 (* ---- stage 2: major alleles --------------------------------------------------------------------- *)
 MajorCase(b, m, e, s) ==
-    LET sites == SitesOf(b, m, CoreIds) IN
+    LET sites == TLCEval(SitesOf(b, m, CoreIds)) IN
     [p |-> PStage, struct |-> StructSeq(s), alleles |-> Majors,
-     sites |-> [i \in DOMAIN sites |-> SiteRec(b, m, e, sites[i], CoreIds)],
-     vars  |-> [v \in CoreIds |-> [si |-> SiteIdx(sites, LoadSite(b, m, v)), ins |-> Variants[v].ins]],
+     sites |-> TLCEval([i \in DOMAIN sites |-> SiteRec(b, m, e, sites[i], CoreIds)]),
+     vars  |-> TLCEval([v \in CoreIds |-> [si |-> SiteIdx(sites, LoadSite(b, m, v)), ins |-> Variants[v].ins]]),
      cfgs  |-> CfgRows(b, m, sites)]
 MajorSols(b, m, e, s) ==     \* {<<allele bag, novel set, score>>}
-    LET c == MajorCase(b, m, e, s)
+    LET c == TLCEval(MajorCase(b, m, e, s))
         d == MM!Derive(c)
         adm == TLCEval(MM!AdmissibleCombos(c, d))
         sc == TLCEval([x \in adm |-> MM!Score(c, d, x)])
@@ -137,13 +137,13 @@ MajorSols(b, m, e, s) ==     \* {<<allele bag, novel set, score>>}
 
 (* ---- stage 3: minor alleles ---------------------------------------------------------------------- *)
 MinorCase(b, m, e, s, x) ==
-    LET sites == SitesOf(b, m, VarIds) IN
+    LET sites == TLCEval(SitesOf(b, m, VarIds)) IN
     [p |-> PStage, struct |-> StructSeq(s), majors |-> Majors, minors |-> Minors, call |-> x,
-     sites |-> [i \in DOMAIN sites |-> SiteRec(b, m, e, sites[i], VarIds)],
-     vars  |-> [v \in VarIds |-> [si |-> SiteIdx(sites, LoadSite(b, m, v)), ins |-> Variants[v].ins, core |-> Variants[v].core]],
+     sites |-> TLCEval([i \in DOMAIN sites |-> SiteRec(b, m, e, sites[i], VarIds)]),
+     vars  |-> TLCEval([v \in VarIds |-> [si |-> SiteIdx(sites, LoadSite(b, m, v)), ins |-> Variants[v].ins, core |-> Variants[v].core]]),
      cfgs  |-> CfgRows(b, m, sites)]
 MinorSols(b, m, e, s, x) ==  \* {<<copies: Seq(<<minor, added, missing>>), score>>}
-    LET c == MinorCase(b, m, e, s, x)
+    LET c == TLCEval(MinorCase(b, m, e, s, x))
         d == MI!Derive(c)
         opts == TLCEval([j \in SeqToSet(c.call) |-> SetToSeq(MI!CopyOptions(c, d, j))])
         all == TLCEval({X \in MI!AssignFrom(c, opts, 1) : MI!Admissible(c, d, X)})
